@@ -44,4 +44,5 @@ CLAIMED["C12"] = (TECH,
    "Proved for all environment texts: the GetEnv modifier leaves everything unchanged for an unset/empty variable, stores true/false for any casing of true/false on bools, stores the text / strconv value for string/int/float kinds and marks the option called with the variable's name, keeps the default on invalid numerals (env.*); Save is a pure overwrite of the receiver (save.*), and the walk rewrites UsedAlias on every match (pair.resolved.called) - so a later command-line occurrence wins.",
    COMMON_NOTE + " Program order (definers run before Parse) is the user's main(); os.Getenv is an uninterpreted total function.", "DESIGN.md section 4 C12")
 CLAIMED["C18"] = (TECH, "wip", COMMON_NOTE, "DESIGN.md section 4 C18")
-NOT_APPLICABLE = {p: _todo for p in ["C07","C13","C14","C15","C16","C17","C19","C20"]}
+CLAIMED["C16"] = (TECH, "wip", COMMON_NOTE, "DESIGN.md section 4 C16")
+NOT_APPLICABLE = {p: _todo for p in ["C07","C13","C14","C15","C17","C19","C20"]}
